@@ -119,10 +119,17 @@ structure Design where
   /-- `__aenter__` contains a cancellable await between the spawn and the point from which the
   child is owned (its clean-up guaranteed) -/
   entryGap : Bool
+  /-- an EOF seen on the child's stdout is taken for "the child is going away": the exit then only
+  WAITS (one grace period) for it instead of running the termination sequence -/
+  eofMeansGone : Bool := false
+  /-- the exit is guarded by a "shutdown already ran" flag of the client object which entering
+  does not reset: it runs once per OBJECT, not once per session -/
+  exitOnce : Bool := false
   deriving DecidableEq, Repr
 
 /-- the design the property asks for (and the model used by the correspondence run) -/
-def Design.sound : Design := { shielded := true, flushWait := some 0, entryGap := false }
+def Design.sound : Design :=
+  { shielded := true, flushWait := some 0, entryGap := false, eofMeansGone := false, exitOnce := false }
 
 /-- outgoing traffic at the moment the exit begins -/
 structure Load where
@@ -146,14 +153,45 @@ def flushPhase (d : Design) (p : ExitPath) (c : ChildSpec) (l : Load) : Option N
     | none, some s => some s        -- only the child's own death releases the writer
     | none, none => none
 
+/-- waiting one grace period for a child that is believed to be exiting, sending nothing -/
+def reapOnly (os : OS) (c : ChildSpec) : Trace :=
+  match c.selfExit with
+  | some s =>
+    if s < graceTermMs then { signals := [], duration := s, child := afterWait os }
+    else { signals := [], duration := graceTermMs, child := .running }
+  | none => { signals := [], duration := graceTermMs, child := .running }
+
+/-- what the exit does about the child once its tasks are cancelled -/
+def finish (d : Design) (os : OS) (p : ExitPath) (c : ChildSpec) : Trace :=
+  if d.eofMeansGone && !c.stdoutOpen && !c.exited then reapOnly os c else exit d.shielded os p c
+
 /-- Leaving the context, everything included.  `none`: `__aexit__` never returns. -/
 def leave (d : Design) (os : OS) (p : ExitPath) (c : ChildSpec) (l : Load) : Option Trace :=
   match flushPhase d p c l with
   | none => none
   | some f =>
     let died := match c.selfExit with | some s => decide (s ≤ f) | none => false
-    let t := exit d.shielded os p { c with exited := c.exited || died }
+    let t := finish d os p { c with exited := c.exited || died }
     some { signals := t.signals.map (fun x => (f + x.1, x.2)), duration := f + t.duration, child := t.child }
+
+/-! ## Several sessions on one client object
+
+A `StdioClient` (and a `StdioTransport`) can be entered again after it has been left: entering
+recreates the streams, the process and the task group.  Each session must end like the first. -/
+
+/-- an exit that did nothing at all -/
+def skippedExit (os : OS) (c : ChildSpec) : Trace :=
+  { signals := [], duration := 0, child := if c.exited then afterWait os else .running }
+
+def sessionsFrom (d : Design) (os : OS) (first : Bool) :
+    List (ExitPath × ChildSpec × Load) → List (Option Trace)
+  | [] => []
+  | (p, c, l) :: rest =>
+    (if d.exitOnce && !first then some (skippedExit os c) else leave d os p c l) :: sessionsFrom d os false rest
+
+/-- the exits of `k` sequential sessions on the same object -/
+def sessions (d : Design) (os : OS) (ss : List (ExitPath × ChildSpec × Load)) : List (Option Trace) :=
+  sessionsFrom d os true ss
 
 /-! ## Cancellation while the context is being entered -/
 
@@ -214,7 +252,7 @@ def pending {α : Type} (written : List (Nat × α)) (i : Nat) : ReqOutcome α :
 /-! ## The behaviours of the property's quantifier (used by the correspondence run) -/
 
 inductive Behaviour where
-  | well | exitAt (k : Nat) | ignoreTerm | neverReads | stopsReading | flood | closeStdout | closeStdin | slowStart
+  | well | exitAt (k : Nat) | ignoreTerm | neverReads | stopsReading | flood | closeStdout (ignoresTerm : Bool) (after : Nat) | closeStdin | slowStart
   deriving DecidableEq, Repr
 
 inductive Moment where
@@ -230,11 +268,11 @@ def stepsDone : Moment → Nat
 
 def childSpec (b : Behaviour) (m : Moment) : ChildSpec :=
   { exited := (match b with | .exitAt k => decide (k ≤ stepsDone m) | _ => false),
-    termDelay := (match b with | .ignoreTerm => none | _ => some 0),
-    eofDelay := (match b with | .well | .slowStart | .closeStdout | .exitAt _ => some 0 | _ => none),
+    termDelay := (match b with | .ignoreTerm => none | .closeStdout true _ => none | _ => some 0),
+    eofDelay := (match b with | .well | .slowStart | .exitAt _ => some 0 | _ => none),
     reads := (match b with | .neverReads | .stopsReading | .flood | .closeStdin => false | _ => true),
     floods := (match b with | .flood => true | _ => false),
-    stdoutOpen := (match b with | .closeStdout => false | _ => true),
+    stdoutOpen := (match b with | .closeStdout _ _ => false | _ => true),
     stdinOpen := (match b with | .closeStdin => false | _ => true) }
 
 /-- does the child answer the `j`-th (1-based) request of the conversation? -/
@@ -243,6 +281,7 @@ def answers (b : Behaviour) (j : Nat) : Bool :=
   | .well | .ignoreTerm | .slowStart => true
   | .exitAt k => decide (2 * j ≤ k)
   | .stopsReading => decide (j = 1)
+  | .closeStdout _ n => decide (j ≤ n)
   | _ => false
 
 end Verif.Model.Shutdown
